@@ -133,6 +133,18 @@ pub fn finish_insert(sim: &Sim, id: Id, mut src: Src, res: Result<calloop::Regis
     let fault = std::mem::replace(&mut sim.hk.borrow_mut().fault_window, false);
     match res {
         Ok(tok) => {
+            // a (slot, generation) pair names one source for ever (until the 16-bit generation
+            // wraps): handing it out twice lets stale tokens and stale events hit the newcomer
+            {
+                let mut st = sim.st.borrow_mut();
+                let fresh = st.issued_keys.insert(tok.verif_key());
+                let churned = st.churned;
+                drop(st);
+                if !fresh && !churned {
+                    sim.violate_props("token.stale_had_effect", &["C15"], vec!["generation_issued_twice".into()], format!("the token of the new source {} (key {:#x}) had already been issued to an earlier source of this loop", id, tok.verif_key()));
+                    return;
+                }
+            }
             src.token = Some(tok);
             src.reg_key = Some(tok.verif_key());
             src.inserted = true;
@@ -837,10 +849,17 @@ pub fn exec_op(sim: &Sim, op: &Op, in_cb: bool) {
             };
             drop(h);
         }
+        Op::Stop => {
+            let Some(s) = sim.st.borrow().signal.clone() else { return };
+            sim.st.borrow_mut().stop_requested = true;
+            s.stop();
+            sim.probe(if in_cb { "stop_in_callback" } else { "stop_top_level" });
+        }
         Op::Wakeup => {
             let s = sim.st.borrow().signal.clone();
             if let Some(s) = s {
                 s.wakeup();
+                sim.st.borrow_mut().wakeup_outstanding = true;
             }
         }
         Op::Advance(ns) => {
@@ -1244,6 +1263,7 @@ pub fn env_allowed(op: &Op) -> bool {
             | Op::StreamPushMany(..)
             | Op::StreamEnd(_)
             | Op::Wakeup
+            | Op::Stop
             | Op::AdapterPeerWrite(..)
             | Op::AdapterPeerRead(..)
             | Op::AdapterPeerClose(_)
